@@ -320,6 +320,41 @@ theorem c15_readonly_trunc (c : Cfg) (hro : c.writable = false) (m0 : Nat → Na
       · right; rw [h]; simp
     · simp only [ha, if_false]; exact ih
 
+/-! ## unconditional forms for real memories
+
+`amaranth.lib.memory.Memory(shape=unsigned(data_width), init=…)` holds every init word cast to
+`data_width` bits and zero beyond the image; `image` is that content. For it the hypothesis of the
+`_partial_dw` theorems holds by construction, so the property's statements are unconditional in the
+init list given to the constructor (or assigned through `init`). -/
+
+/-- what the memory holds initially for the init list `init` -/
+def image (c : Cfg) (init : List Nat) : Nat → Nat := fun a => init.getD a 0 % 2 ^ c.dw
+
+theorem c15_image_lt (c : Cfg) (init : List Nat) (a : Nat) : image c init a < 2 ^ c.dw :=
+  Nat.mod_lt _ (Nat.two_pow_pos _)
+
+/-- the stored memory is the abstract memory (initial image, then the masked writes of the
+    presented write transfers), for every init list and every input history -/
+theorem mem_is_abs_image (c : Cfg) (hd : c.gran ∣ c.dw) (init : List Nat) (inp : Nat → In) (t : Nat) :
+    (st c (image c init) inp t).mem = absMem c (image c init) inp t :=
+  mem_is_abs_partial_dw c hd (image c init) inp (c15_image_lt c init) t
+
+/-- a presented read returns, with its acknowledge one cycle later, the value most recently written
+    to that word (initially the init image), for every init list and every input history -/
+theorem read_your_writes_image (c : Cfg) (hd : c.gran ∣ c.dw) (init : List Nat) (inp : Nat → In) (t : Nat)
+    (hp : presented c (image c init) inp t = true) (hr : (inp t).we = false) :
+    (st c (image c init) inp (t + 1)).ack = true ∧
+    (st c (image c init) inp (t + 1)).rdat = absMem c (image c init) inp t (inp t).adr :=
+  read_your_writes_partial_dw c hd (image c init) inp (c15_image_lt c init) t hp hr
+
+/-- a read-only SRAM acknowledges writes but never changes its contents, for every init list -/
+theorem readonly_immutable_image (c : Cfg) (hro : c.writable = false) (hd : c.gran ∣ c.dw)
+    (init : List Nat) (inp : Nat → In) (t : Nat) :
+    (st c (image c init) inp t).mem = image c init ∧
+    (presented c (image c init) inp t = true → (st c (image c init) inp (t + 1)).ack = true) :=
+  readonly_immutable_partial_dw c hro hd (image c init) inp (c15_image_lt c init) t
+
+
 /-- non-vacuity: 32-bit words of 8-bit granules; a masked write held through its acknowledge is
     performed once; the read that follows returns the merged word with its acknowledge -/
 example :
